@@ -46,7 +46,10 @@ def gen_layout(rng, kind, via, max_inputs=8, clean=False):
         if not clean and rng.random() < 0.07:
             want = rng.choice([c for c in (1, 2, 3, 4) if c != want])
         cands = [i for i, (n, nc) in enumerate(srcs) if nc == want]
-        if cands and rng.random() < 0.3:
+        if srcs and not clean and rng.random() < 0.12:
+            # the same source object under another semantic, whatever its component count
+            sid = rng.randrange(len(srcs))
+        elif cands and rng.random() < 0.3:
             sid = rng.choice(cands)
         else:
             srcs.append([rng.choice([1, 2, 3, 3, 4, 5, 8] if clean else [0, 1, 2, 3, 3, 4, 5, 8]), want])
